@@ -559,6 +559,13 @@ func (s *sender) RequestBlock(_ context.Context, h hotstuff.Hash) (*hotstuff.Blo
 			}
 		case "actor":
 			if cl.Actor != nil && cl.Actor.ServeFetch {
+				if cl.Actor.ServeEvery > 1 {
+					cl.Actor.fetchSeen++
+					if cl.Actor.fetchSeen%cl.Actor.ServeEvery != 0 {
+						cl.Faults["fetch-unanswered-by-actor"]++
+						continue
+					}
+				}
 				if t, ok := cl.Actor.Twin[h]; ok {
 					cl.Faults["fetch-served-other-block-with-same-hash"]++
 					return t, true
